@@ -423,6 +423,7 @@ def run(tier):
     from harness import probes
     probes.late_conversion_round_trip(R)
     probes.flatten_probe(R)
+    probes.aggregate_probe(R, aspects=("round_trip",), n_classes=30)
     probes.stdlib_round_trip_probe(R, aspects=("round_trip", "json"))
     T1 = "univ * sopts * ty * value"
     bad, errs = core.run_coq_shards("C05_model", P.header() + HEADER_EXTRA, items,
